@@ -261,6 +261,9 @@ func swarmWeights(g *kernel.Rng, kind string) map[string]int {
 func Gen(prop, tier string, seed uint64) *kernel.Plan {
 	g := kernel.NewRng(seed).Derive("plan")
 	thorough := tier == "thorough"
+	if w := kernel.NewRng(seed).Derive("wide"); prop == "C15" && w.Chance(1, wideEvery) {
+		return genWide(w, prop, seed, thorough)
+	}
 	kinds := []string{"counter", "map", "list", "doc"}
 	kw := []int{1, 3, 4, 5}
 	switch prop {
@@ -427,6 +430,60 @@ func Gen(prop, tier string, seed uint64) *kernel.Plan {
 		at := g.Intn(len(evs) + 1)
 		evs = append(evs[:at], append([]Ev{{T: "burst", R: g.Intn(n), N: g.Intn(40)}}, evs[at:]...)...)
 	}
+	cb, _ := json.Marshal(cfg)
+	return &kernel.Plan{Engine: "A", Property: prop, Seed: seed, Config: cb, Events: encodeEvents(evs)}
+}
+
+// wideEvery: one C15 plan in so many is a wide-batch plan.
+const wideEvery = 600
+
+// genWide: a List on which one call creates more elements than fit a 16-bit field (element
+// identities are (operation timestamp, index in the batch); nothing in the statement bounds the
+// index), followed by the next operations of the same and of another replica, whose timestamps
+// are the neighbours of the batch's. Oracles: identities + reference + no-panic.
+func genWide(g *kernel.Rng, prop string, seed uint64, thorough bool) *kernel.Plan {
+	cfg := Config{Kind: "list", N: 2, Oracles: map[string]bool{"nopanic": true, "ids": true, "ref": true}}
+	c := &genCtx{g: g, prop: prop, kind: "list", n: 2, hot: g.Range(0, 3), maxB: 4, depth: 1, keys: []string{"k1"},
+		opW: map[string]int{"ins": 10, "del": 4, "upd": 4, "get": 1, "getmany": 1, "size": 1}}
+	var evs []Ev
+	pre := g.Range(0, 3) // the batch is not always the first operation
+	for i := 0; i < pre; i++ {
+		evs = append(evs, c.localEv(0, false))
+	}
+	width := 1<<16 + g.Range(1, 40)
+	if g.Chance(1, 4) {
+		width = 1<<15 + g.Range(1, 40)
+	}
+	evs = append(evs, Ev{T: "local", R: 0, Op: "ins", A: c.pos(), B: width, S: 1})
+	evs = append(evs, Ev{T: "join", R: 1})
+	far := func(r int) Ev { // a call that addresses the far end of the batch
+		e := c.localEv(r, false)
+		if e.Op == "ins" || e.Op == "del" || e.Op == "upd" || e.Op == "get" {
+			e.A = width - g.Range(0, 60)
+			if g.Chance(1, 2) {
+				e.A = 1<<16 - g.Range(-3, 3)
+			}
+		}
+		return e
+	}
+	k := g.Range(3, 6)
+	if thorough {
+		k = g.Range(3, 10)
+	}
+	for i := 0; i < k; i++ {
+		r := g.Intn(2)
+		switch g.Intn(6) {
+		case 0:
+			evs = append(evs, Ev{T: "push", R: r})
+		case 1:
+			evs = append(evs, Ev{T: "deliver", R: r, N: g.Range(1, 4)})
+		case 2, 3:
+			evs = append(evs, far(r))
+		default:
+			evs = append(evs, c.localEv(r, false))
+		}
+	}
+	evs = append(evs, Ev{T: "quiesce"})
 	cb, _ := json.Marshal(cfg)
 	return &kernel.Plan{Engine: "A", Property: prop, Seed: seed, Config: cb, Events: encodeEvents(evs)}
 }
